@@ -511,14 +511,15 @@ Proof. intros [Hne [Hn Hp]] Hi. apply key_of_in.
 
 Section Transfer.
 Variable R : cring.
+Variable cons : bool.
 
-Lemma transfer_out_stuck m' ports : forall (e : exp R), fold_left (transfer_out m') ports (e, false) = (e, false).
+Lemma transfer_out_stuck m' ports : forall (e : exp R), fold_left (transfer_out cons m') ports (e, false) = (e, false).
 Proof. induction ports as [|p r IH]; simpl; auto. Qed.
 
 (* the transfer of the output ports appends one herald per herald of the added processor, in order, with the
    same expected value, and touches neither detectors nor mode counts *)
 Lemma transfer_out_heralds m' ports : forall (e e' : exp R),
-  fold_left (transfer_out m') ports (e, true) = (e', true) ->
+  fold_left (transfer_out cons m') ports (e, true) = (e', true) ->
   heralds_of (e_out e') = heralds_of (e_out e) ++
      map (fun p => (key_of m' (hd 0 (p_range p)), expected_of p)) (filter is_herald_port ports)
   /\ e_dets e' = e_dets e /\ e_nher e' = e_nher e /\ e_moi e' = e_moi e.
@@ -530,23 +531,27 @@ Proof. induction ports as [|p r IH]; simpl; intros e e' H.
       * destruct (IH _ _ H) as [H1 [H2 [H3 H4]]]. simpl in *. rewrite H1, heralds_of_app. simpl.
         rewrite <- app_assoc. unfold expected_of. simpl. rewrite Ek. auto.
       * rewrite transfer_out_stuck in H. discriminate.
-    + destruct (free (e_out e) (seq (key_of m' (hd 0 (p_range p))) (length (p_range p)))).
+    + destruct (port_kept cons m' p _ && free (e_out e) (seq (key_of m' (hd 0 (p_range p))) (length (p_range p)))).
       * destruct (IH _ _ H) as [H1 [H2 [H3 H4]]]. simpl in *. rewrite H1, heralds_of_app.
         unfold heralds_of at 2. simpl. unfold is_herald_port at 1. simpl. rewrite app_nil_r. auto.
       * apply IH. exact H. Qed.
 
 Lemma transfer_in_step m' (e : exp R) p :
-  let e' := transfer_in m' e p in
+  let e' := transfer_in cons m' e p in
   e_out e' = e_out e /\ e_dets e' = e_dets e /\ e_nher e' = e_nher e /\ e_moi e' = e_moi e /\ e_ps e' = e_ps e.
-Proof. unfold transfer_in. destruct (free (e_in e) _); simpl; auto. Qed.
+Proof. unfold transfer_in. destruct (port_kept cons m' p _ && free (e_in e) _); simpl; auto. Qed.
 Lemma transfer_in_keeps m' ports : forall (e : exp R),
-  let e' := fold_left (transfer_in m') ports e in
+  let e' := fold_left (transfer_in cons m') ports e in
   e_out e' = e_out e /\ e_dets e' = e_dets e /\ e_nher e' = e_nher e /\ e_moi e' = e_moi e /\ e_ps e' = e_ps e.
 Proof. induction ports as [|p r IH]; simpl; intros e. auto.
-  destruct (IH (transfer_in m' e p)) as [H1 [H2 [H3 [H4 H5]]]].
+  destruct (IH (transfer_in cons m' e p)) as [H1 [H2 [H3 [H4 H5]]]].
   destruct (transfer_in_step m' e p) as [G1 [G2 [G3 [G4 G5]]]].
   rewrite H1, H2, H3, H4, H5. auto. Qed.
 
+End Transfer.
+
+Section AddProc.
+Variable R : cring.
 Variable tb : nat -> mat R -> mat R.
 Variable cf : cfg.
 
@@ -567,11 +572,11 @@ Proof. unfold add_proc. intros H.
   set (m0 := to_nmap am) in *. set (m := with_heralds (csize e) m0 (herald_modes r)) in *.
   destruct (is_perm (perm_vect m)) eqn:Ep; [|inversion H].
   exists m0, (filled m). 
-  match type of H with context [fold_left (transfer_out (filled m)) (e_out r) (?e2, true)] => set (E2 := e2) in * end.
-  destruct (fold_left (transfer_out (filled m)) (e_out r) (E2, true)) as [e3 [|]] eqn:Ef; [|inversion H].
-  destruct (transfer_out_heralds _ _ _ _ Ef) as [H1 [H2 [H3 H4]]].
-  destruct (transfer_in_keeps (filled m) (e_in r) e3) as [G1 [G2 [G3 [G4 G5]]]].
-  set (e4 := fold_left (transfer_in (filled m)) (e_in r) e3) in *.
+  match type of H with context [fold_left (transfer_out _ (filled m)) (e_out r) (?e2, true)] => set (E2 := e2) in * end.
+  destruct (fold_left (transfer_out _ (filled m)) (e_out r) (E2, true)) as [e3 [|]] eqn:Ef; [|inversion H].
+  destruct (transfer_out_heralds _ _ _ _ _ _ Ef) as [H1 [H2 [H3 H4]]].
+  destruct (transfer_in_keeps R (c_port_consecutive cf) (filled m) (e_in r) e3) as [G1 [G2 [G3 [G4 G5]]]].
+  set (e4 := fold_left (transfer_in _ (filled m)) (e_in r) e3) in *.
   assert (Hfin : heralds_of (e_out e4) = heralds_of (drop_ports keep e m0) ++
       map (fun p => (key_of (filled m) (hd 0 (p_range p)), expected_of p)) (filter is_herald_port (e_out r)) /\
     e_dets e4 = e_dets e ++ map (fun h => nth h (e_dets r) 0) (herald_modes r) /\
@@ -583,4 +588,161 @@ Proof. unfold add_proc. intros H.
     + destruct (independent a _); inversion H; subst; simpl; auto 10.
     + inversion H; subst; simpl; auto 10.
   - inversion H; subst. auto 10. Qed.
-End Transfer.
+End AddProc.
+
+(* ------------------------------------------------------------------ ports of the added processor (rule of 6d353ebc) *)
+Definition ports_within (n : nat) (ports : list pent) : Prop :=
+  forall p x, In p ports -> In x (p_range p) -> x < n.
+(* q sits exactly on the images of the modes of a port of the added processor (for a herald: of its mode) *)
+Definition on_image_of (m' : nmap) (p q : pent) : Prop :=
+  p_range q = map (key_of m') (p_range p) \/ p_range q = [key_of m' (hd 0 (p_range p))].
+Definition on_images (m' : nmap) (src : list pent) (q : pent) : Prop := exists p, In p src /\ on_image_of m' p q.
+
+Lemma key_of_bound m' n v : 0 < n -> (forall kv, In kv m' -> fst kv < n) -> key_of m' v < n.
+Proof. intros Hn H. unfold key_of. destruct (find _ m') eqn:E; [|exact Hn].
+  apply find_some in E. apply H. tauto. Qed.
+Lemma on_images_within m' n src q : 0 < n -> (forall kv, In kv m' -> fst kv < n) ->
+  on_images m' src q -> forall x, In x (p_range q) -> x < n.
+Proof. intros Hn H [p [_ [E|E]]] x Hx; rewrite E in Hx.
+  - apply in_map_iff in Hx as [v [<- _]]. apply key_of_bound; auto.
+  - destruct Hx as [<-|[]]. apply key_of_bound; auto. Qed.
+Lemma within_free n ports x : ports_within n ports -> n <= x -> free ports [x] = true.
+Proof. intros H Hx. unfold free. simpl. rewrite andb_true_r. unfold port_at.
+  destruct (find _ ports) eqn:E; auto. apply find_some in E as [Hin Hm].
+  unfold mem in Hm. apply existsb_mem in Hm. specialize (H _ _ Hin Hm). lia. Qed.
+
+Section Ports.
+Variable R : cring.
+
+Lemma transfer_out_step m' (e : exp R) ok p :
+  (forall q, In q (e_out (fst (transfer_out true m' (e, ok) p))) -> In q (e_out e) \/ on_image_of m' p q) /\
+  (forall q, In q (e_in (fst (transfer_out true m' (e, ok) p))) -> In q (e_in e) \/ on_image_of m' p q).
+Proof. unfold transfer_out. destruct ok; [|simpl; auto].
+  destruct (p_kind p).
+  - unfold add_herald_int. destruct (free (e_in e) _ && free (e_out e) _); simpl; [|auto].
+    split; intros q Hq; apply in_app_iff in Hq as [Hq|[<-|[]]]; auto; right; right; reflexivity.
+  - unfold port_kept. simpl negb. rewrite orb_false_l.
+    destruct (list_eq_dec Nat.eq_dec _ _) as [E|E]; simpl; [|auto].
+    destruct (free (e_out e) _); simpl; [|auto].
+    split; intros q Hq; auto. apply in_app_iff in Hq as [Hq|[<-|[]]]; auto. right. left. simpl. symmetry. exact E. Qed.
+
+Lemma transfer_out_on_images m' ports : forall (st : exp R * bool),
+  (forall q, In q (e_out (fst (fold_left (transfer_out true m') ports st))) ->
+             In q (e_out (fst st)) \/ on_images m' ports q) /\
+  (forall q, In q (e_in (fst (fold_left (transfer_out true m') ports st))) ->
+             In q (e_in (fst st)) \/ on_images m' ports q).
+Proof. induction ports as [|p r IH]; simpl; intros st. auto.
+  destruct st as [e ok]. destruct (IH (transfer_out true m' (e, ok) p)) as [I1 I2].
+  destruct (transfer_out_step m' e ok p) as [S1 S2].
+  split; intros q Hq.
+  - destruct (I1 q Hq) as [H|[p' [Hp' Ho]]].
+    + destruct (S1 q H) as [H'|H']; auto. right. exists p. split; [left; reflexivity | exact H'].
+    + right. exists p'. split; [right; exact Hp' | exact Ho].
+  - destruct (I2 q Hq) as [H|[p' [Hp' Ho]]].
+    + destruct (S2 q H) as [H'|H']; auto. right. exists p. split; [left; reflexivity | exact H'].
+    + right. exists p'. split; [right; exact Hp' | exact Ho]. Qed.
+
+Lemma transfer_in_on_images m' ports : forall (e : exp R),
+  (forall q, In q (e_in (fold_left (transfer_in true m') ports e)) -> In q (e_in e) \/ on_images m' ports q) /\
+  e_out (fold_left (transfer_in true m') ports e) = e_out e.
+Proof. induction ports as [|p r IH]; simpl; intros e. auto.
+  destruct (IH (transfer_in true m' e p)) as [I1 I2].
+  assert (S : (forall q, In q (e_in (transfer_in true m' e p)) -> In q (e_in e) \/ on_image_of m' p q) /\
+              e_out (transfer_in true m' e p) = e_out e).
+  { unfold transfer_in, port_kept. simpl negb. rewrite orb_false_l.
+    destruct (list_eq_dec Nat.eq_dec _ _) as [E|E]; simpl; [|auto].
+    destruct (free (e_in e) _); simpl; [|auto]. split; auto.
+    intros q Hq. apply in_app_iff in Hq as [Hq|[<-|[]]]; auto. right. left. simpl. symmetry. exact E. }
+  destruct S as [S1 S2]. split; [|congruence].
+  intros q Hq. destruct (I1 q Hq) as [H|[p' [Hp' Ho]]].
+  - destruct (S1 q H) as [H'|H']; auto. right. exists p. split; [left; reflexivity | exact H'].
+  - right. exists p'. split; [right; exact Hp' | exact Ho]. Qed.
+
+Lemma lmax_lt l n : 0 < n -> (forall x, In x l -> x < n) -> lmax l < n.
+Proof. intros Hn. induction l as [|x r IH]; simpl; intros H. exact Hn.
+  assert (x < n) by (apply H; auto). assert (lmax r < n) by (apply IH; intros; apply H; auto). lia. Qed.
+Lemma fill_keys ms : forall m, keys (fill m ms) = keys m ++ ms.
+Proof. induction ms as [|mm r IH]; intros m; simpl. rewrite app_nil_r. reflexivity.
+  rewrite IH, keys_app. simpl. rewrite <- app_assoc. reflexivity. Qed.
+Lemma filled_keys_bound m n : 0 < n -> (forall kv, In kv m -> fst kv < n) -> forall kv, In kv (filled m) -> fst kv < n.
+Proof. intros Hn H kv Hin. assert (Hk : In (fst kv) (keys (filled m))) by (apply in_map; exact Hin).
+  unfold filled in Hk. rewrite fill_keys in Hk. apply in_app_iff in Hk as [Hk|Hk].
+  - apply in_map_iff in Hk as [kv' [E Hin']]. rewrite <- E. apply H. exact Hin'.
+  - unfold missing_modes in Hk. apply filter_In in Hk as [Hk _]. apply in_seq in Hk.
+    assert (lmax (keys m) < n). { apply lmax_lt; auto. intros x Hx. apply in_map_iff in Hx as [kv' [<- Hin']]. auto. }
+    lia. Qed.
+
+Variable tb : nat -> mat R -> mat R.
+Variable cf : cfg.
+Hypothesis Hcons : c_port_consecutive cf = true.
+
+(* Experiment.add(mapping, processor) under the current rule, when it succeeds: every port of the result is a port
+   the left-hand side already had, or sits exactly on the images of the modes of a port of the added processor;
+   all of them lie inside the circuit, so that in/out_port_names are total and the next new herald mode is free *)
+Theorem add_proc_ports e mp r keep e' seg : add_proc tb cf e mp r keep = (e', true, seg) ->
+  exists m',
+    (forall q, In q (e_out e') -> In q (e_out e) \/ on_images m' (e_out r) q) /\
+    (forall q, In q (e_in e') -> In q (e_in e) \/ on_images m' (e_out r ++ e_in r) q) /\
+    (0 < csize e -> ports_within (csize e) (e_in e) -> ports_within (csize e) (e_out e) ->
+     ports_within (csize e') (e_in e') /\ ports_within (csize e') (e_out e')).
+Proof. unfold add_proc. rewrite Hcons. intros H.
+  destruct (resolve_map _ _ _ _ _ _ mp) as [am|]; [|inversion H].
+  destruct (check_consistency _ _ am && ps_allows e am) eqn:Ec; [|inversion H].
+  apply andb_prop in Ec as [Ec _]. apply check_consistency_iff in Ec as [_ [Ec _]].
+  set (m0 := to_nmap am) in *. set (m := with_heralds (csize e) m0 (herald_modes r)) in *.
+  destruct (is_perm (perm_vect m)) eqn:Ep; [|inversion H].
+  exists (filled m).
+  match type of H with context [fold_left (transfer_out _ (filled m)) (e_out r) (?e2, true)] => set (E2 := e2) in * end.
+  destruct (transfer_out_on_images (filled m) (e_out r) (E2, true)) as [O1 O2].
+  destruct (fold_left (transfer_out true (filled m)) (e_out r) (E2, true)) as [e3 [|]] eqn:Ef; [|inversion H].
+  destruct (transfer_out_heralds R true (filled m) (e_out r) E2 e3 Ef) as [_ [_ [K3 K4]]].
+  destruct (transfer_in_on_images (filled m) (e_in r) e3) as [N1 N2].
+  destruct (transfer_in_keeps R true (filled m) (e_in r) e3) as [_ [_ [G3 [G4 _]]]].
+  set (e4 := fold_left (transfer_in true (filled m)) (e_in r) e3) in *.
+  simpl in O1, O2.
+  assert (Hdrop : forall q, In q (drop_ports keep e m0) -> In q (e_out e)).
+  { unfold drop_ports. destruct keep; auto. intros q Hq. apply filter_In in Hq. tauto. }
+  assert (Hout : forall q, In q (e_out e4) -> In q (e_out e) \/ on_images (filled m) (e_out r) q).
+  { intros q Hq. rewrite N2 in Hq. destruct (O1 q Hq) as [Hq'|Hq']; auto. }
+  assert (Hin : forall q, In q (e_in e4) -> In q (e_in e) \/ on_images (filled m) (e_out r ++ e_in r) q).
+  { intros q Hq. destruct (N1 q Hq) as [Hq'|[p [Hp Ho]]].
+    - destruct (O2 q Hq') as [Hq''|[p [Hp Ho]]]; auto. right. exists p. split; auto. apply in_app_iff; auto.
+    - right. exists p. split; auto. apply in_app_iff; auto. }
+  assert (Hsz : csize e4 = csize e + length (herald_modes r)).
+  { unfold csize. rewrite G3, G4, K3, K4. subst E2. simpl. lia. }
+  assert (Hwithin : 0 < csize e -> ports_within (csize e) (e_in e) -> ports_within (csize e) (e_out e) ->
+     ports_within (csize e4) (e_in e4) /\ ports_within (csize e4) (e_out e4)).
+  { intros Hpos Wi Wo. rewrite Hsz.
+    assert (Hb : forall kv, In kv (filled m) -> fst kv < csize e + length (herald_modes r)).
+    { apply filled_keys_bound. lia. intros kv Hkv. unfold m, with_heralds in Hkv.
+      apply in_app_iff in Hkv as [Hkv|Hkv].
+      - unfold m0, to_nmap in Hkv. apply in_map_iff in Hkv as [[k v] [<- Hkv]]. simpl.
+        destruct (Ec k v Hkv) as [_ Hc]. unfold connectible in Hc.
+        apply andb_prop in Hc as [Hc _]. apply andb_prop in Hc as [_ Hc]. apply Nat.ltb_lt in Hc. lia.
+      - destruct kv as [k v]. apply in_combine_l in Hkv. apply in_seq in Hkv. simpl. lia. }
+    split; intros p x Hp Hx.
+    - destruct (Hin p Hp) as [Hp'|Hp']. specialize (Wi _ _ Hp' Hx). lia.
+      eapply on_images_within; eauto. lia.
+    - destruct (Hout p Hp) as [Hp'|Hp']. specialize (Wo _ _ Hp' Hx). lia.
+      eapply on_images_within; eauto. lia. }
+  destruct (e_ps r) as [q|].
+  - destruct (e_ps e4) as [a|].
+    + destruct (independent a _); inversion H; subst; simpl; auto.
+    + inversion H; subst; simpl; auto.
+  - inversion H; subst. auto. Qed.
+End Ports.
+
+(* the code before 6d353ebc: a port could be re-attached beyond the last mode.
+   Processor(2).add([1,0], q) with a two-mode port on q's modes (0,1): the port lands on modes [1,2] *)
+Definition within_b (n : nat) (ports : list pent) : bool := forallb (fun p => forallb (fun x => x <? n) (p_range p)) ports.
+Lemma within_b_of n ports : ports_within n ports -> within_b n ports = true.
+Proof. intros H. unfold within_b. apply forallb_forall. intros p Hp. apply forallb_forall. intros x Hx.
+  apply Nat.ltb_lt. eapply H; eauto. Qed.
+Definition stick_right (R : cring) : exp R := fst (add_port (new_exp 2) 0 3 1 2 2).
+Theorem port_beyond_circuit_old_code (R : cring) :
+  let res := add_proc (fun _ A => A) cfg_old (new_exp (R:=R) 2) (MList [1%Z; 0%Z]) (stick_right R) true in
+  snd (fst res) = true /\ ports_within 2 (e_out (stick_right R)) /\
+  ~ ports_within (csize (fst (fst res))) (e_out (fst (fst res))).
+Proof. split; [vm_compute; reflexivity|]. split.
+  - intros p x Hp Hx. vm_compute in Hp. destruct Hp as [<-|[]]. simpl in Hx. intuition lia.
+  - intros H. apply within_b_of in H. vm_compute in H. discriminate. Qed.
